@@ -268,7 +268,9 @@ func cmdCheck(args []string) int {
 		}
 		seenName[vc.Name] = true
 	}
+	tGen := time.Since(start).Seconds()
 	dischargeAll(vcs, work, to, 14)
+	tDis := time.Since(start).Seconds() - tGen
 
 	// known findings
 	var known []KnownFinding
@@ -405,7 +407,7 @@ func cmdCheck(args []string) int {
 		b, _ := json.MarshalIndent(ev, "", " ")
 		os.WriteFile(filepath.Join(*verif, "evidence", *prop+".json"), b, 0o644)
 	}
-	fmt.Printf("govc: property=%s obligations=%d discharged=%d violations=%d functions=%d lemmas=%d wall=%.1fs\n", *prop, total, discharged, violations, len(funcs), len(lemmaNames), time.Since(start).Seconds())
+	fmt.Printf("govc: property=%s obligations=%d discharged=%d violations=%d functions=%d lemmas=%d wall=%.1fs (load+generate %.1fs, discharge %.1fs)\n", *prop, total, discharged, violations, len(funcs), len(lemmaNames), time.Since(start).Seconds(), tGen, tDis)
 	if engineErr {
 		return 2
 	}
